@@ -141,9 +141,10 @@ def nlp_diff(p):
     with contextlib.redirect_stdout(io.StringIO()):
         orc = Oracle(spec, meth).expected()
     x, par = opti.x, opti.p
-    exp = [ca.MX(r["r"]) for r in orc.rows]
+    rows_ = [r for r in orc.rows if r["kind"] != "free"]       # rows without any bound restrict nothing: not compared natively
+    exp = [ca.MX(r["r"]) for r in rows_]
     tags = []
-    for r in orc.rows:
+    for r in rows_:
         for i in range(ca.MX(r["r"]).numel()):
             tags.append((r["kind"], "/".join(str(t) for t in r["tag"] + (i,))))
     extra = []
